@@ -314,6 +314,15 @@ impl<'a> ArithmeticEvaluator<'a> {
                     self.interm.push(ArithmeticTerm::Reg(r));
                 }
                 ArithTermRef::Op(lvl, cell, name, arity) => {
+                    // the value of a top-level subexpression is written to argument register `arg`.
+                    // unless the goal ends its chunk (where live arguments are evacuated first),
+                    // a temporary variable may still live there: use a free temporary instead.
+                    let lvl = if lvl == Level::Shallow && !term_loc.is_last() {
+                        Level::Deep
+                    } else {
+                        lvl
+                    };
+
                     self.marker
                         .mark_non_var::<QueryInstruction>(lvl, term_loc, cell, &mut code);
 
